@@ -83,8 +83,11 @@ class Environment(object):
 
     def run(self):
         with self.prepare_lock:
-            if self.prepare_thread:
-                self.prepare_thread.join()
+            # the starter thread clears self.prepare_thread when it finishes,
+            # read the attribute only once
+            prepare_thread = self.prepare_thread
+            if prepare_thread:
+                prepare_thread.join()
 
             if not hasattr(self, 'conn'):
                 self._run()
